@@ -461,17 +461,30 @@ def canRetry : Outcome → Bool
   | .err .deadline => true
   | _ => false
 
-/-- `handlePull`'s loop `for range backoff.Loop { err := Pull(); if canRetry(err) continue; return err }`
-    against a registry that behaves as the attempt scripts say, one after the other -/
+/-- `Local.handlePull` (streaming), the loop
+    `for _, err := range backoff.Loop(ctx, …) { if err != nil { return err }; err := Pull(); if canRetry(err) { continue }; return err }`
+    against a registry that behaves as the attempt scripts say, one after the other.  Every way out:
+      * `some .ok`      — `Pull` returned nil: the handler streams `"status":"success"`;
+      * `some (.err e)` — `Pull` returned an error that is not retryable: the handler reports it;
+      * `none`          — the request context ended while the loop was still retrying
+                          (`backoff.Loop` yields `ctx.Err()`); here: the scripted behaviour is
+                          exhausted, the API client goes away.  The handler reports the error.
+    There is NO attempt limit and no other exit (the `return nil` after the loop is unreachable). -/
 def handlePull (H : Bytes → D) (cfg : Cfg) : Cache D → List (Attempt D) → Cache D × Option Outcome
   | c, [] => (c, none)
   | c, a :: as =>
     let r := pull H cfg c a
-    if canRetry r.2 then
-      match as with
-      | [] => (r.1, some r.2)
-      | _ => handlePull H cfg r.1 as
-    else (r.1, some r.2)
+    if canRetry r.2 then handlePull H cfg r.1 as else (r.1, some r.2)
+
+/-- number of `Pull` calls the loop makes -/
+def handlePullAttempts (H : Bytes → D) (cfg : Cfg) : Cache D → List (Attempt D) → Nat
+  | _, [] => 0
+  | c, a :: as =>
+    let r := pull H cfg c a
+    if canRetry r.2 then handlePullAttempts H cfg r.1 as + 1 else 1
+
+/-- does the handler end the stream with `"status":"success"`? -/
+def handlerSaysSuccess (o : Option Outcome) : Bool := o == some .ok
 
 end
 
